@@ -7,6 +7,7 @@ import (
 	"math/big"
 	"sort"
 	"strings"
+	"sync"
 )
 
 type SortKind int
@@ -33,9 +34,12 @@ var (
 	BoolSort = &Sort{Kind: SBool}
 	IntSort  = &Sort{Kind: SInt}
 	sortTab  = map[string]*Sort{}
+	sortMu   sync.Mutex
 )
 
 func BVSort(w int) *Sort {
+	sortMu.Lock()
+	defer sortMu.Unlock()
 	k := fmt.Sprintf("bv%d", w)
 	if s, ok := sortTab[k]; ok {
 		return s
@@ -46,6 +50,8 @@ func BVSort(w int) *Sort {
 }
 
 func FPSort(e, s int) *Sort {
+	sortMu.Lock()
+	defer sortMu.Unlock()
 	k := fmt.Sprintf("fp%d_%d", e, s)
 	if so, ok := sortTab[k]; ok {
 		return so
@@ -57,6 +63,8 @@ func FPSort(e, s int) *Sort {
 
 func ArraySort(i, e *Sort) *Sort {
 	k := "arr " + i.String() + " " + e.String()
+	sortMu.Lock()
+	defer sortMu.Unlock()
 	if s, ok := sortTab[k]; ok {
 		return s
 	}
@@ -66,24 +74,21 @@ func ArraySort(i, e *Sort) *Sort {
 }
 
 func (s *Sort) String() string {
-	if s.cache != "" {
-		return s.cache
-	}
 	switch s.Kind {
 	case SBool:
-		s.cache = "Bool"
+		return "Bool"
 	case SInt:
-		s.cache = "Int"
+		return "Int"
 	case SBV:
-		s.cache = fmt.Sprintf("(_ BitVec %d)", s.W)
+		return fmt.Sprintf("(_ BitVec %d)", s.W)
 	case SFP:
-		s.cache = fmt.Sprintf("(_ FloatingPoint %d %d)", s.E, s.S)
+		return fmt.Sprintf("(_ FloatingPoint %d %d)", s.E, s.S)
 	case SArray:
-		s.cache = fmt.Sprintf("(Array %s %s)", s.Idx, s.Elem)
+		return fmt.Sprintf("(Array %s %s)", s.Idx, s.Elem)
 	case SRM:
-		s.cache = "RoundingMode"
+		return "RoundingMode"
 	}
-	return s.cache
+	return "?" 
 }
 
 type Term struct {
@@ -563,6 +568,16 @@ func (c *TermCtx) Div(a, b *Term) *Term { // SMT-LIB Euclidean div
 	if b.IsConst() && b.IVal.Cmp(big.NewInt(1)) == 0 {
 		return a
 	}
+	// floor(floor(x/a)/b) = floor(x/(a*b)) for positive constants
+	if b.IsConst() && b.IVal.Sign() > 0 && a.Op == "div" && a.Args[1].IsConst() && a.Args[1].IVal.Sign() > 0 {
+		return c.Div(a.Args[0], c.IntBig(new(big.Int).Mul(a.Args[1].IVal, b.IVal)))
+	}
+	// x in [0, b) => x div b = 0
+	if b.IsConst() && b.IVal.Sign() > 0 {
+		if iv := c.Bounds(a); iv.lo != nil && iv.hi != nil && iv.lo.Sign() >= 0 && iv.hi.Cmp(b.IVal) < 0 {
+			return c.Int(0)
+		}
+	}
 	return c.mk("div", IntSort, "", nil, a, b)
 }
 
@@ -573,6 +588,26 @@ func (c *TermCtx) Mod(a, b *Term) *Term { // SMT-LIB Euclidean mod
 	}
 	if b.IsConst() && b.IVal.Cmp(big.NewInt(1)) == 0 {
 		return c.Int(0)
+	}
+	if b.IsConst() && b.IVal.Sign() > 0 {
+		k := b.IVal
+		// (x mod m) mod k = x mod k when k | m
+		if a.Op == "mod" && a.Args[1].IsConst() && a.Args[1].IVal.Sign() > 0 {
+			if new(big.Int).Rem(a.Args[1].IVal, k).Sign() == 0 {
+				return c.Mod(a.Args[0], b)
+			}
+		}
+		// ((x mod m) div d) mod k = (x div d) mod k when d*k | m
+		if a.Op == "div" && a.Args[1].IsConst() && a.Args[1].IVal.Sign() > 0 && a.Args[0].Op == "mod" && a.Args[0].Args[1].IsConst() {
+			d, m := a.Args[1].IVal, a.Args[0].Args[1].IVal
+			if m.Sign() > 0 && new(big.Int).Rem(m, new(big.Int).Mul(d, k)).Sign() == 0 {
+				return c.Mod(c.Div(a.Args[0].Args[0], a.Args[1]), b)
+			}
+		}
+		// x in [0, k) => x mod k = x
+		if iv := c.Bounds(a); iv.lo != nil && iv.hi != nil && iv.lo.Sign() >= 0 && iv.hi.Cmp(k) < 0 {
+			return a
+		}
 	}
 	return c.mk("mod", IntSort, "", nil, a, b)
 }
